@@ -35,21 +35,19 @@
 EXTENDS SchemaSem, TLC
 
 Points == <<
-   "-1000000000000000000000000000000",
-   "-9223372036854775809", "-9223372036854775808",
-   "-2147483649", "-2147483648",
-   "-32769", "-32768",
-   "-129", "-128",
-   "-1", "0", "1",
-   "127", "128", "255", "256",
-   "32767", "32768", "65535", "65536",
-   "2147483647", "2147483648", "4294967295", "4294967296",
-   "9223372036854775807", "9223372036854775808",
-   "18446744073709551615", "18446744073709551616",
-   "1000000000000000000000000000000" >>
-ZeroIdx == 11
+   "-1.7976931348623157e308", "-3.4028235e38", "-340282346638528859811704183484516925440",
+   "-1000000000000000000000000000000", "-9223372036854775809", "-9223372036854775808",
+   "-2147483649", "-2147483648", "-32769", "-32768", "-129", "-128", "-1", "0", "5e-324", "1e-45",
+   "1", "127", "128", "255", "256", "32767", "32768", "65535", "65536", "2147483647", "2147483648",
+   "4294967295", "4294967296", "9223372036854775807", "9223372036854775808",
+   "18446744073709551615", "18446744073709551616", "1000000000000000000000000000000",
+   "340282346638528859811704183484516925440", "3.4028235e38", "1.7976931348623157e308" >>
+ZeroIdx == 14
 (* the same texts as sequences of characters (TLC cannot look inside a string) *)
 PointCs == <<
+   <<"-", "1", ".", "7", "9", "7", "6", "9", "3", "1", "3", "4", "8", "6", "2", "3", "1", "5", "7", "e", "3", "0", "8">>,
+   <<"-", "3", ".", "4", "0", "2", "8", "2", "3", "5", "e", "3", "8">>,
+   <<"-", "3", "4", "0", "2", "8", "2", "3", "4", "6", "6", "3", "8", "5", "2", "8", "8", "5", "9", "8", "1", "1", "7", "0", "4", "1", "8", "3", "4", "8", "4", "5", "1", "6", "9", "2", "5", "4", "4", "0">>,
    <<"-", "1", "0", "0", "0", "0", "0", "0", "0", "0", "0", "0", "0", "0", "0", "0", "0", "0", "0", "0", "0", "0", "0", "0", "0", "0", "0", "0", "0", "0", "0", "0">>,
    <<"-", "9", "2", "2", "3", "3", "7", "2", "0", "3", "6", "8", "5", "4", "7", "7", "5", "8", "0", "9">>,
    <<"-", "9", "2", "2", "3", "3", "7", "2", "0", "3", "6", "8", "5", "4", "7", "7", "5", "8", "0", "8">>,
@@ -61,6 +59,8 @@ PointCs == <<
    <<"-", "1", "2", "8">>,
    <<"-", "1">>,
    <<"0">>,
+   <<"5", "e", "-", "3", "2", "4">>,
+   <<"1", "e", "-", "4", "5">>,
    <<"1">>,
    <<"1", "2", "7">>,
    <<"1", "2", "8">>,
@@ -78,13 +78,28 @@ PointCs == <<
    <<"9", "2", "2", "3", "3", "7", "2", "0", "3", "6", "8", "5", "4", "7", "7", "5", "8", "0", "8">>,
    <<"1", "8", "4", "4", "6", "7", "4", "4", "0", "7", "3", "7", "0", "9", "5", "5", "1", "6", "1", "5">>,
    <<"1", "8", "4", "4", "6", "7", "4", "4", "0", "7", "3", "7", "0", "9", "5", "5", "1", "6", "1", "6">>,
-   <<"1", "0", "0", "0", "0", "0", "0", "0", "0", "0", "0", "0", "0", "0", "0", "0", "0", "0", "0", "0", "0", "0", "0", "0", "0", "0", "0", "0", "0", "0", "0">> >>
+   <<"1", "0", "0", "0", "0", "0", "0", "0", "0", "0", "0", "0", "0", "0", "0", "0", "0", "0", "0", "0", "0", "0", "0", "0", "0", "0", "0", "0", "0", "0", "0">>,
+   <<"3", "4", "0", "2", "8", "2", "3", "4", "6", "6", "3", "8", "5", "2", "8", "8", "5", "9", "8", "1", "1", "7", "0", "4", "1", "8", "3", "4", "8", "4", "5", "1", "6", "9", "2", "5", "4", "4", "0">>,
+   <<"3", ".", "4", "0", "2", "8", "2", "3", "5", "e", "3", "8">>,
+   <<"1", ".", "7", "9", "7", "6", "9", "3", "1", "3", "4", "8", "6", "2", "3", "1", "5", "7", "e", "3", "0", "8">> >>
 RECURSIVE JoinCs(_)
 JoinCs(cs) == IF cs = <<>> THEN "" ELSE Head(cs) \o JoinCs(Tail(cs))
 ASSUME PointCsOK == Len(PointCs) = Len(Points) /\ \A i \in DOMAIN Points : JoinCs(PointCs[i]) = Points[i]
 P(d) == 4 * ((CHOOSE i \in DOMAIN Points : Points[i] = d) - ZeroIdx)
 (* the two non-point numbers values may take (decimal text for the realiser) *)
-Halves == <<[q |-> 2, d |-> "0.5"], [q |-> -2, d |-> "-0.5"]>>
+QHalf == P("1") - 2           \* 0.5 lies between the point below 1 and 1
+QNegHalf == P("-1") + 2
+Halves == <<[q |-> QHalf, d |-> "0.5"], [q |-> QNegHalf, d |-> "-0.5"]>>
+(* The extreme values of the float kinds as encoding/json writes them: a float32 in the shortest    *)
+(* decimal that identifies it among the 32-bit floats -- math.MaxFloat32 is written 3.4028235e+38,  *)
+(* which as a number lies ABOVE float64(MaxFloat32) = 3402823466...440 (both are points) -- and the *)
+(* smallest denormals 1e-45 / 5e-324.  A schema is judged on that text, not on the Go value.        *)
+MaxF32 == P("3.4028235e38")
+MaxF64 == P("1.7976931348623157e308")
+NegMaxF32 == P("-3.4028235e38")
+NegMaxF64 == P("-1.7976931348623157e308")
+TinyF32 == P("1e-45")
+TinyF64 == P("5e-324")
 
 IntKinds   == {"int", "int8", "int16", "int32", "int64"}
 UintKinds  == {"uint", "uint8", "uint16", "uint32", "uint64"}
@@ -236,8 +251,8 @@ BaseVals(k) ==
      [] k = "uint16"  -> <<GN(0), GN(P("65535")), GN(P("1"))>>
      [] k = "uint32"  -> <<GN(0), GN(P("4294967295")), GN(P("1"))>>
      [] k = "uint64"  -> <<GN(0), GN(P("18446744073709551615")), GN(P("1"))>>
-     [] k = "float32" -> <<GN(0), GN(-2), GN(P("1000000000000000000000000000000"))>>
-     [] k = "float64" -> <<GN(0), GN(2), GN(P("-1000000000000000000000000000000"))>>
+     [] k = "float32" -> <<GN(0), GN(MaxF32), GN(NegMaxF32), GN(TinyF32), GN(QNegHalf), GN(P("1000000000000000000000000000000"))>>
+     [] k = "float64" -> <<GN(0), GN(MaxF64), GN(NegMaxF64), GN(TinyF64), GN(QHalf), GN(P("-1000000000000000000000000000000"))>>
      [] k = "string"  -> <<GS(<<>>), GS(<<"a">>), GS(<<"a", "U", "<">>)>>
      [] k = "bytes"   -> <<GBy("empty"), GBy("fbff"), GBy("a")>>
      [] k = "time"    -> <<GT("zero"), GT("t1")>>
@@ -341,8 +356,12 @@ RECURSIVE EncQuoted(_, _)
 (* exponent from 1e21 on); a string is written as its JSON text, quotes and escapes included    *)
 (* (encoding/json escapes < > & as \u00xx), and that text is the content of the outer string.   *)
 NumText(q, float) ==
-   IF q = 2 THEN <<"0", ".", "5">>
-   ELSE IF q = -2 THEN <<"-", "0", ".", "5">>
+   IF q = QHalf THEN <<"0", ".", "5">>
+   ELSE IF q = QNegHalf THEN <<"-", "0", ".", "5">>
+   ELSE IF float /\ q = MaxF32 THEN <<"3", ".", "4", "0", "2", "8", "2", "3", "5", "e", "+", "3", "8">>
+   ELSE IF float /\ q = NegMaxF32 THEN <<"-", "3", ".", "4", "0", "2", "8", "2", "3", "5", "e", "+", "3", "8">>
+   ELSE IF float /\ q = MaxF64 THEN <<"1", ".", "7", "9", "7", "6", "9", "3", "1", "3", "4", "8", "6", "2", "3", "1", "5", "7", "e", "+", "3", "0", "8">>
+   ELSE IF float /\ q = NegMaxF64 THEN <<"-", "1", ".", "7", "9", "7", "6", "9", "3", "1", "3", "4", "8", "6", "2", "3", "1", "5", "7", "e", "+", "3", "0", "8">>
    ELSE IF float /\ q = P("1000000000000000000000000000000") THEN <<"1", "e", "+", "3", "0">>
    ELSE IF float /\ q = P("-1000000000000000000000000000000") THEN <<"-", "1", "e", "+", "3", "0">>
    ELSE PointCs[(q \div 4) + ZeroIdx]
